@@ -84,4 +84,35 @@ theorem spec_failed (conv : Nat → T → Option U → COut U E P) :
       refine ⟨[], t, outs.getLast?, p', by simp, by simp, by simp, Or.inr ⟨p, rfl, ?_⟩⟩
       simpa using hc
 
+/-! ### a converter that leaves the previous output alone and always converts: plain `map` -/
+
+theorem setLast_getLast (outs : List U) : setLast outs outs.getLast? = outs := by
+  unfold setLast
+  split
+  · rename_i n u hlen hlast
+    rw [List.getLast?_eq_getElem?] at hlast
+    apply List.ext_getElem?
+    intro i
+    rw [List.getElem?_set]
+    split
+    · rename_i hni
+      have hlt : n < outs.length := by omega
+      rw [← hlast, if_pos hlt]; congr 1; omega
+    · rfl
+  · rfl
+
+theorem spec_map (f : T → U) (conv : Nat → T → Option U → COut U E P)
+    (hc : ∀ k t p, conv k t p = .converted (f t) p) :
+    ∀ (input : List T) (outs : List U) (calls : List (T × Option U)),
+      ∃ calls', spec conv input outs calls = .ok (outs ++ input.map f) calls' := by
+  intro input
+  induction input with
+  | nil => intro outs calls; exact ⟨calls, by simp [spec]⟩
+  | cons t rest ih =>
+    intro outs calls
+    unfold spec
+    simp only [hc, setLast_getLast]
+    obtain ⟨c', h⟩ := ih (outs ++ [f t]) (calls ++ [(t, outs.getLast?)])
+    exact ⟨c', by rw [h]; simp⟩
+
 end Truc.Vec
